@@ -15,7 +15,7 @@
    (wf_svcs: keys strictly increasing, "gc_worker" text only under gc_worker's key, safe points >= 0), which
    every history preserves (C15_store_wellformed_always); they therefore hold at every call of every history. *)
 From Coq Require Import String.
-From PDV Require Import lib.Base lib.Skel lib.C15_Guard gen.Gen_C15 model.C15_Gc proof.C15_GcProof proof.C15_Skel.
+From PDV Require Import lib.Base lib.Skel lib.C15_Guard gen.Gen_C15 model.C15_Gc proof.C15_GcProof proof.C15_GcInterleave proof.C15_Skel.
 Local Open Scope Z_scope.
 
 (* ---- clause 1a: the stored cluster GC safe point never decreases (and stays readable), all interleavings ---- *)
@@ -123,6 +123,28 @@ Theorem C15_nonpositive_ttl_removed :
     forall n, key_of i = KSvc n -> n <> 0 -> ttl <= 0 -> sv_get n (svcs st') = None.
 Proof. exact nonpositive_ttl_removed_pf. Qed.
 
+(* ---- clauses 2, 4, 5 when something slips into UpdateServiceGCSafePoint's locked section: the REST delete takes no
+        server lock, so it can remove the (clean, non-gc_worker) services d between LoadMin and the request's own save;
+        and that save may fail (ErrNotApplied) or be applied although the handler sees an error (ErrApplied) ---- *)
+Theorem C15_interleaved_update_is_plain_when_nothing_slips_in :
+  forall st i ttl sp now, svc_update_il st i ttl sp now [] Ok = svc_update st i ttl sp now.
+Proof. exact svc_update_il_plain. Qed.
+
+Theorem C15_service_clauses_with_concurrent_rest_delete :
+  forall st i ttl sp now d o st' r, wf_svcs (svcs st) -> 0 <= sp -> now <= maxI64 ->
+    svc_update_il st i ttl sp now d o = (st', Some r) ->
+    wf_svcs (svcs st') /\ gcw_ok (svcs st') /\
+    forall k e, sv_get k (svcs st') = Some e -> now <= e_exp e /\ r_sp r <= e_sp e.
+Proof. exact il_min_le_every_live_pf. Qed.
+
+(* answered or not: the store stays well-formed, gc_worker's entry stays, the cluster safe point is untouched *)
+Theorem C15_failed_service_update_keeps_store_sound :
+  forall st i ttl sp now d o, wf_svcs (svcs st) -> 0 <= sp -> now <= maxI64 ->
+    wf_svcs (svcs (fst (svc_update_il st i ttl sp now d o)))
+    /\ (gcw_ok (svcs st) -> gcw_ok (svcs (fst (svc_update_il st i ttl sp now d o))))
+    /\ gc (fst (svc_update_il st i ttl sp now d o)) = gc st.
+Proof. exact il_always_pf. Qed.
+
 (* non-vacuity: a history with sequential and blocked updates, a fault, service registrations and reads *)
 Example C15_nonvacuous :
   let ls := [LLoad 0 5; LSave 0 Ok; LLoad 1 20; LLoad 2 30; LSave 1 ErrApplied; LGet; LSvc IGcw maxI64 7 1700000000;
@@ -159,5 +181,7 @@ Print Assumptions C15_below_min_not_recorded.
 Print Assumptions C15_gc_worker_always_infinite.
 Print Assumptions C15_gc_worker_established.
 Print Assumptions C15_gc_worker_stays.
+Print Assumptions C15_service_clauses_with_concurrent_rest_delete.
+Print Assumptions C15_failed_service_update_keeps_store_sound.
 Print Assumptions C15_expired_removed.
 Print Assumptions C15_nonpositive_ttl_removed.
